@@ -186,6 +186,10 @@ class TaskScheduler(object):
 
     def _continue_with_task(self, task):
         task._resume_contexts()
+        if task.is_computed():
+            # A context failed to resume, which has already failed the task (and closed
+            # its generator): there is nothing left to continue.
+            return 0
         old_task = self.active_task
         self.active_task = task
 
